@@ -11,14 +11,33 @@ let cls_of = function "1" -> Framing.L1 | "2" -> Framing.L2 | _ -> Framing.L5
 let lit_h = bytes_of_hex "620000000000"
 
 let handle = function
-  | ["deframe"; b] ->
-    (match Framing.deframe (bytes_of_hex b) with
-     | Res.Ok ((h, body), rest) ->
-       Printf.sprintf "OK %s %d %s %s %s"
+  | "deframe" :: b :: sched ->
+    let bb = bytes_of_hex b in
+    let show h body rest = Printf.sprintf "OK %s %d %s %s %s"
          (match h.Framing.hf with Framing.HNew -> "N" | Framing.HOld -> "O")
-         (int_of_n h.Framing.htag) (show_len h.Framing.hlen) (hex_of_bytes body) (hex_of_bytes rest)
+         (int_of_n h.Framing.htag) (show_len h.Framing.hlen) (hex_of_bytes body) (hex_of_bytes rest) in
+    let spec = (match Framing.deframe bb with
+     | Res.Ok ((h, body), rest) -> show h body rest
      | Res.Err -> "ERR"
-     | Res.Panic -> "PANIC")
+     | Res.Panic -> "PANIC") in
+    (match sched with
+     | [consumer; reqs] ->
+       (* the reader machine of C17_body_reader_machine_accepts / _rejects under the consumer's own request sizes *)
+       let rl = if reqs = "_" || reqs = "" then [] else Stdlib.List.map int_of_string (Stdlib.String.split_on_char ',' reqs) in
+       let ra = Array.of_list rl in
+       let req (i : BinNums.coq_N) : BinNums.coq_N =
+         if consumer = "0" || Array.length ra = 0 then n_of_int 65536
+         else n_of_int (Stdlib.max 1 (Stdlib.min 65536 ra.((int_of_n i) mod Array.length ra))) in
+       let mach = (match Framing.dec_header bb with
+         | Res.Ok (h, r) ->
+           (match BodyReader.br_run req h r with
+            | ((body, BodyReader.BrClean), rest) -> show h body rest
+            | ((_, BodyReader.BrFailed), _) -> "ERR"
+            | ((_, BodyReader.BrOutOfFuel), _) -> "FUEL")
+         | Res.Err -> "ERR"
+         | Res.Panic -> "PANIC") in
+       if mach = spec then spec else "MODEL-SPLIT spec=" ^ Stdlib.String.sub spec 0 (Stdlib.min 60 (Stdlib.String.length spec)) ^ " machine=" ^ Stdlib.String.sub mach 0 (Stdlib.min 60 (Stdlib.String.length mach))
+     | _ -> spec)
   | ["frame_new"; tag; ks; cls; body] ->
     hex_of_bytes (Framing.frame_new (n_of_int (int_of_string tag)) (ns_of ks) (cls_of cls) (bytes_of_hex body))
   | ["frame_old"; tag; lt; body] ->
